@@ -465,43 +465,40 @@ def minimise(check, case, sig, budget_runs=250, budget_s=30.0, log=None):
                     break
                 if runs[0] >= budget_runs * 0.5:
                     break
-    # 2. truncate the decision list (past the end every decision is 0)
+    # 2. truncate the decision list (past the end every decision is 0). `best` and `best_res` are only ever replaced TOGETHER, by a
+    #    candidate that was actually run: when the budget runs out mid-way the pair returned is still a case and ITS result.
     dec = list(best['decisions'])
     lo, hi = 0, len(dec)
     while lo < hi and runs[0] < budget_runs:
         mid = (lo + hi) // 2
-        r = attempt(dict(best, decisions=dec[:mid]))
+        c = dict(best, decisions=dec[:mid])
+        r = attempt(c)
         if r is not None:
             hi = mid
-            best_res = r
+            best, best_res = c, r
         else:
             lo = mid + 1
-    dec = dec[:hi]
-    r = attempt(dict(best, decisions=dec))
-    if r is not None:
-        best['decisions'] = dec
-        best_res = r
     dec = list(best['decisions'])
     # 3. zero chunks (ddmin over non-zero decisions)
     chunk = max(1, len(dec) // 4)
     while chunk >= 1 and runs[0] < budget_runs and time.monotonic() < t_end:
         i = 0
-        changed = False
         while i < len(dec) and runs[0] < budget_runs:
             if any(dec[i:i + chunk]):
                 cand = dec[:i] + [0] * len(dec[i:i + chunk]) + dec[i + chunk:]
-                r = attempt(dict(best, decisions=cand))
+                c = dict(best, decisions=cand)
+                r = attempt(c)
                 if r is not None:
                     dec = cand
-                    best_res = r
-                    changed = True
+                    best, best_res = c, r
             i += chunk
         if chunk == 1:
             break
         chunk = max(1, chunk // 2)
+    dec = list(best['decisions'])
     while dec and dec[-1] == 0:
-        dec.pop()
-    best['decisions'] = dec
+        dec.pop()  # trailing zeros are what replay supplies past the end anyway: same execution
+    best = dict(best, decisions=dec)
     return (best, best_res), runs[0]
 
 
@@ -596,11 +593,18 @@ def run_check(prop, tier, base_seed, jobs=None, runs=None, wall=None):
             continue
         mcase, mr = mres
         # final confirmation in a fresh process: same signature and same digest
-        conf = run_forked(check, mcase)
+        conf = run_forked(check, mcase, wall=3 * RUN_WALL_LIMIT)
         if not _same(conf, sig) or conf['digest'] != mr['digest']:
-            errors.append({'verdict': 'replay-mismatch', 'report': f'minimised replay of {sig} not stable', 'index': f['case']['index'],
-                           'seed': f['case']['seed'], 'scenario': mcase['scenario'], 'sim': mcase['sim']})
-            continue
+            # fall back to the case as it was found (recorded decisions, not minimised): it must replay twice identically
+            c0 = f['case']
+            a = run_forked(check, c0, wall=3 * RUN_WALL_LIMIT)
+            b = run_forked(check, c0, wall=3 * RUN_WALL_LIMIT) if _same(a, sig) else None
+            if b is not None and _same(b, sig) and a['digest'] == b['digest']:
+                mcase, mr = c0, a
+            else:
+                errors.append({'verdict': 'replay-mismatch', 'report': f'minimised replay of {sig} not stable', 'index': f['case']['index'],
+                               'seed': f['case']['seed'], 'scenario': mcase['scenario'], 'sim': mcase['sim']})
+                continue
         path = write_replay(prop, mcase, mr, sig)
         lines.append(f'VIOLATION property={prop} replay={path}')
         finding_records.append({'signature': sig, 'replay': path, 'count': tot['sigcount'].get(sig), 'minimise_runs': nruns,
